@@ -193,6 +193,13 @@ pub fn child(args: &Args) -> ! {
     }
     let Ctx { state, values_by, mut snapshots, mut problems, mut images, flushes, mut last_ack_snapshot, mut indeterminate, .. } = cx;
     let consumed = mon.consumed();
+    {
+        let failed: Vec<u32> = consumed.iter().map(|(i, _, _)| *i).collect();
+        match crashimg::journal_discipline(&mon.events(), &failed) {
+            Ok(n) => out["journal_writes_checked"] = json!(n),
+            Err(e) => problems.push(("fault:journal-discipline".into(), e)),
+        }
+    }
     let calls_b = mon.calls() - calls_before;
     let classes: Vec<&str> = mon.call_classes().iter().skip(calls_before as usize).map(|c| c.name()).collect();
     // epilogue: faults stop
@@ -322,6 +329,11 @@ impl Ctx<'_> {
                 std::fs::write(&p2, asis).unwrap();
                 if r.is_ok() {
                     self.last_ack_snapshot = snap_idx;
+                    // the same instant under the strict fsync model (what a failed fsync covered is lost unless rewritten)
+                    let strict = crashimg::build_strict(self.base, &events, cut);
+                    let p3 = format!("{}/{}.{}.strict.img", self.dir, self.tag, self.img_n);
+                    std::fs::write(&p3, strict).unwrap();
+                    self.images.push(json!({"path": p3, "kind": "strict-durable-after-ok-flush", "lo": snap_idx, "hi": snap_idx, "faulted": faulted}));
                     self.images.push(json!({"path": p1, "kind": "durable-after-ok-flush", "lo": snap_idx, "hi": snap_idx, "faulted": faulted}));
                     self.images.push(json!({"path": p2, "kind": "asis-after-ok-flush", "lo": snap_idx, "hi": snap_idx, "faulted": faulted}));
                 } else {
@@ -447,7 +459,7 @@ fn judge_image(path: &str, v: &Value, snapshots: &[BTreeMap<usize, KState>], val
 pub fn run(args: &Args) -> Report {
     let mut report = Report::new(
         "fault",
-        "deterministic single-worker synchronous-I/O workloads (first write on a fresh device, updates of durable keys across size classes, delete/recreate with extent reuse, nearly-full device, repeated rewrites of one key); the I/O calls (every pwrite and fsync) of the faulted phase are numbered and fault plans are enumerated: every single call x {fail before, fail after the bytes/fsync reached the device}, seeded pairs, persistent failure from each call on, per-class bursts of 1-3 consecutive failures. Each plan runs in its own process; online: every get equals the model, writes are never refused; after every flush attempt the durable-prefix image and the file as it stands are recovered by the real store in a fresh process and each key must lie in [last acknowledged state, latest state] (exactly the model after an Ok flush); after faults stop flush must succeed (or, after an indeterminate failure, after reopening) and make everything durable. distinct non-trivial = plans whose fault was actually consumed, by (workload, call class, mode, flush outcome pattern)",
+        "deterministic single-worker synchronous-I/O workloads (first write on a fresh device, updates of durable keys across size classes, delete/recreate with extent reuse, nearly-full device, repeated rewrites of one key); the I/O calls (every pwrite and fsync) of the faulted phase are numbered and fault plans are enumerated: every single call x {fail before, fail after the bytes/fsync reached the device}, seeded pairs, persistent failure from each call on, per-class bursts of 1-3 consecutive failures. Each plan runs in its own process; online: every get equals the model, writes are never refused; after every flush attempt the durable-prefix image and the file as it stands are recovered by the real store in a fresh process and each key must lie in [last acknowledged state, latest state] (exactly the model after an Ok flush); after faults stop flush must succeed (or, after an indeterminate failure, after reopening) and make everything durable. After an Ok flush the image is also built under the strict fsync model (a failed fsync may have dropped the dirty pages it covered: only writes issued again count). distinct non-trivial = plans whose fault was actually consumed, by (workload, call class, mode, flush outcome pattern)",
     );
     let thorough = args.thorough();
     let uring = args.get("io") == Some("uring");
@@ -567,6 +579,7 @@ pub fn run(args: &Args) -> Report {
                         local.count(&format!("enter_fault_errno_{}", e[1]), 1);
                     }
                 }
+                local.count("journal_writes_checked_against_the_slot_discipline", res["journal_writes_checked"].as_u64().unwrap_or(0));
                 if let Some(u) = res["uring_buffers"].as_object() {
                     for (k, v) in u {
                         local.count(&format!("uring_buffers_{k}"), v.as_u64().unwrap_or(0));
